@@ -136,7 +136,9 @@ func openFile(file string) (*os.File, error) {
 
 // createFile creates file.
 func createFile(file string) (*os.File, error) {
-	outfile, err := os.Create(file)
+	// O_APPEND as in openFile: several descriptors may write to one file
+	// (a status update while the run is still being recorded)
+	outfile, err := os.OpenFile(file, os.O_RDWR|os.O_CREATE|os.O_TRUNC|os.O_APPEND, 0666)
 	if err != nil {
 		return nil, err
 	}
